@@ -13,6 +13,7 @@ RULE = ('generated documents of four schema families (plain: no namespaces at al
         'compared with the full tree above the cut; a case = (document, element path, api); distinct non-trivial = distinct '
         '(family, tag path without positions, api)')
 RULE += (' ' + 'Shard ident (family lib: unique / key constraints on the root, on each shelf and on each book, 0-2 seeded duplicates): iter_errors / is_valid with seven path forms on full, thin-lazy and lazy resources; a duplicate whose two holders lie in the selected part must be reported, nothing may be reported that the full run does not report there.')
+RULE += (' ' + 'Shard lazycut: lazy depth 1-3 x thin_lazy with same-named local and global declarations on three levels; verdict and error reasons equal to the full run.')
 ASSUMPTIONS = [
     'the governing declaration is the XsdElement whose raw_decode received the instance element (references resolved through .ref)',
     '"yields the declaration" is read through the library\'s own rule get_element(tag, path) == find(path).match(tag)',
